@@ -115,6 +115,10 @@ def build_value(t, j, depth=0):
         return build_value(typing.get_args(t)[0], j, depth + 1)
     if origin in (list, typing.List, set, tuple) or t is list:
         args = typing.get_args(t)
+        if isinstance(j, dict) and set(j) == {"$repeat"}:
+            # the SAME instance several times in one list (a template object reused by the caller)
+            one = build_value(args[0] if args else typing.Any, j["$repeat"][0], depth + 1)
+            return [one] * int(j["$repeat"][1])
         return [build_value(args[0] if args else typing.Any, x, depth + 1) for x in j]
     if origin in (dict, typing.Dict) or t is dict:
         args = typing.get_args(t)
